@@ -2,6 +2,7 @@ package main
 
 import (
 	"fmt"
+	"strings"
 	"go/token"
 	"go/types"
 	"sort"
@@ -780,6 +781,7 @@ func (fx *FuncExec) seqCopyFacts(st *State, nw, src SeqTree, dstOff, srcOff, n T
 		if a.Sort != b.Sort {
 			return
 		}
+		b = fx.nameArray(st, b)
 		if lit, ok := litValue(n); ok && lit.IsInt64() && lit.Int64() <= 8 {
 			for k := int64(0); k < lit.Int64(); k++ {
 				st.assume(tEq(tSelect(a, tAdd(dstOff, intLit(k))), tSelect(b, tAdd(srcOff, intLit(k)))))
@@ -791,12 +793,18 @@ func (fx *FuncExec) seqCopyFacts(st *State, nw, src SeqTree, dstOff, srcOff, n T
 		// index form: quantify over the destination index so that (select new j) is the trigger
 		body := tImplies(tAnd(tLe(dstOff, kt), tLt(kt, tAdd(dstOff, n))), tEq(tSelect(a, kt), tSelect(b, tAdd(srcOff, tSub(kt, dstOff)))))
 		st.assume(Term{fmt.Sprintf("(forall ((%s Int)) (! %s :pattern (%s)))", k, body.S, tSelect(a, kt).S), SBool})
+		// source-index form of the same fact, triggered by reads of the source
+		j := fx.c.boundName("j")
+		jt := Term{j, SInt}
+		body2 := tImplies(tAnd(tLe(srcOff, jt), tLt(jt, tAdd(srcOff, n))), tEq(tSelect(a, tAdd(dstOff, tSub(jt, srcOff))), tSelect(b, jt)))
+		st.assume(Term{fmt.Sprintf("(forall ((%s Int)) (! %s :pattern (%s)))", j, body2.S, tSelect(b, jt).S), SBool})
 	})
 }
 
 func (fx *FuncExec) seqKeepFacts(st *State, nw, old SeqTree, lo, hi Term) {
 	// elements outside [lo,hi) unchanged
 	zipTree(nw, old, func(a, b Term) {
+		b = fx.nameArray(st, b)
 		k := fx.c.boundName("k")
 		kt := Term{k, SInt}
 		body := tImplies(tOr(tLt(kt, lo), tLe(hi, kt)), tEq(tSelect(a, kt), tSelect(b, kt)))
@@ -883,4 +891,15 @@ func (fx *FuncExec) copyBuiltin(ps *pathState, x *ssa.Call) {
 	}
 	fx.seqKeepFacts(st, nt, dseq.Tree, dv.Off, tAdd(dv.Off, n))
 	st.objs[dv.Arr] = SeqV{Tree: nt, N: dseq.N, Typ: dseq.Typ}
+}
+
+// nameArray: patterns may not contain ite (wrap-around arithmetic inside store
+// indices); give a compound array term a name.
+func (fx *FuncExec) nameArray(st *State, a Term) Term {
+	if !strings.HasPrefix(a.S, "(") {
+		return a
+	}
+	n := fx.c.fresh("arr", a.Sort)
+	st.assume(tEq(n, a))
+	return n
 }
